@@ -16,7 +16,7 @@ import time
 from .. import common
 
 PAYLOADS = [0, 1, 4095, 65536, 65537, 262144]
-KINDS = ['copy', 'noread', 'alias', 'fail', 'notfound']
+KINDS = ['copy', 'noread', 'alias', 'fail', 'notfound', 'killed']
 ALIAS_TEXT = b"alias q='r'\n"
 
 
@@ -61,7 +61,7 @@ def run_case(case, limit=3.0):
             if n == 1:
                 role = 'gen'
             end = ending if i == n - 1 else 'e0'
-            if k in ('copy', 'fail', 'noread'):
+            if k in ('copy', 'fail', 'noread', 'killed'):
                 g = os.path.join(d, 'gate%d' % i)
                 os.mkfifo(g)
                 gates.append((i, g))
@@ -69,6 +69,8 @@ def run_case(case, limit=3.0):
                     end = 'e1'
                 if k == 'fail' and i == n - 1:
                     end = 'e1'
+                if k == 'killed':
+                    end = 's15'
                 r = 'noread' if k == 'noread' else role
                 parts.append('vh-stage %d %s %d %s %s' % (i, r, size, g, end))
             elif k == 'alias':
@@ -181,7 +183,7 @@ def expected(case):
     data = b''
     flows = []
     for i, k in enumerate(kinds):
-        if k in ('copy', 'fail'):
+        if k in ('copy', 'fail', 'killed'):
             if i == 0:
                 data = payload(size)
             # middle copies forward; the last one is the sink
@@ -193,9 +195,11 @@ def expected(case):
             data = b''
         flows.append(data)
     last = kinds[-1]
-    if last in ('copy', 'noread', 'fail'):
+    if last in ('copy', 'noread', 'fail', 'killed'):
         if last == 'fail':
             st = 1
+        elif last == 'killed':
+            st = 128 + 15
         elif ending.startswith('e'):
             st = int(ending[1:])
         else:
@@ -298,12 +302,12 @@ def run(rep, tier):
         elif obs['early']:
             dev = 'returned-before-all-stages-terminated'
         else:
-            gated = [i for i, k in enumerate(kinds) if k in ('copy', 'fail', 'noread')]
+            gated = [i for i, k in enumerate(kinds) if k in ('copy', 'fail', 'noread', 'killed')]
             if any(obs['starts'].get(i, 0) != 1 for i in gated):
                 dev = 'stage-start-count'
             elif obs['status'] != exp['status']:
                 dev = 'status'
-            elif n >= 2 and kinds[-1] in ('copy', 'fail') and exp['sink_in'] is not None:
+            elif n >= 2 and kinds[-1] in ('copy', 'fail', 'killed') and exp['sink_in'] is not None:
                 nread, s, _ = obs['moved'].get(n - 1, (None, None, None))
                 if nread != len(exp['sink_in']):
                     dev = 'byte-count'
